@@ -415,7 +415,9 @@ class C15(SingleRun):
                 tasks[leaf].setdefault("next", []).append({"do": [st]})
             return "Unable to identify any tasks to start"
         if kind == "bad_grammar":
-            bad = rng.choice(["<% 1 +/ 2 %>", "{{ 1 +/ 2 }}", "<% ctx(v0 %>", "{{ ctx('v0' }}"])
+            bad = rng.choice(["<% 1 +/ 2 %>", "{{ 1 +/ 2 }}", "<% ctx(v0 %>", "{{ ctx('v0' }}",
+                              # a valid expression followed by a stray operand
+                              "{{ ctx('v0') ctx('v0') }}", "{{ ctx('v0') + 1 2 }}", "<% ctx(v0) ctx(v0) %>", "<% ctx(v0) + 1 2 %>"])
             n = names[rng.randrange(len(names))]
             where = rng.choice(["input", "when", "publish"])
             if where == "when" and tasks[n].get("next"):
@@ -428,7 +430,7 @@ class C15(SingleRun):
                     return None
             else:
                 tasks[n].setdefault("input", {})["zz_bad"] = bad
-            return bad.replace('"', '\\"')[:8]
+            return "expressions"
         if kind == "unassigned_var":
             ref = rng.choice(["<% ctx(zz_unassigned) %>", "<% ctx().zz_unassigned %>", "{{ ctx('zz_unassigned') }}",
                               "{{ ctx().zz_unassigned }}"])
@@ -449,9 +451,10 @@ class C15(SingleRun):
             elif where == "when" and tasks[n].get("next"):
                 tasks[n]["next"][0]["when"] = ref.replace("%>", "= 1 %>").replace("}}", "== 1 }}")
             elif where == "publish" and tasks[n].get("next") and isinstance(tasks[n]["next"][0].get("publish", []), list):
-                tasks[n]["next"][0].setdefault("publish", []).append({"zz_copy": ref})
+                # sometimes the first assignment of a variable reads the variable itself
+                tasks[n]["next"][0].setdefault("publish", []).append({rng.choice(["zz_copy", "zz_unassigned"]): ref})
             elif where == "output":
-                d.setdefault("output", []).append({"zz_out": ref})
+                d.setdefault("output", []).append({rng.choice(["zz_out", "zz_unassigned"]): ref})
             else:
                 tasks[n].setdefault("input", {})["zz_in"] = ref
             return "zz_unassigned"
